@@ -29,4 +29,7 @@ ev C10 5 internal/tan/zz_demo_test.go ./internal/tan -- C10
 ev C10 6 internal/logdb/zz_demo_test.go ./internal/logdb -- C10 C09 C04
 ev C02 5 internal/tan/zz_demo_test.go ./internal/tan -- C09 C10 C02
 }
+lane4() {
+ev C02 6 internal/raft/zz_demo_test.go ./internal/raft -- C02 C19
+}
 "$@"
